@@ -151,6 +151,43 @@ func init() {
 	})
 	specMods["slices.Clone"] = func(p *Program, c *ssa.CallCommon) []string { return nil }
 
+	// --- regexp: a compiled regexp remembers its pattern text; matching is an uninterpreted relation of (pattern, input)
+	reg("regexp.MustCompile", "returns a non-nil *Regexp r with pattern(r) == the argument (panics otherwise: not modelled unless the caller is safe)", func(c *callCtx) bool {
+		x := c.x
+		x.vc.declFun("uf_re_pattern", []string{SInt}, SStr)
+		x.vc.declFun("uf_re_compiles", []string{SStr}, SBool)
+		if c.fr.safe && c.fr.depth == 0 {
+			x.safety(c.fr, c.n, app("uf_re_compiles", c.args[0].S), "regexp-must-compile", c.instr.Pos())
+		}
+		r := x.allocRef(c.n, c.st, "regexp")
+		c.n.assume(mkEq(app("uf_re_pattern", r), c.args[0].S))
+		c.res = []Term{{S: r, Sort: SInt, T: c.resTypes[0]}}
+		return true
+	})
+	reg("regexp.Compile", "err == nil iff compiles(pattern); then the result is non-nil with pattern(r) == the argument, else nil", func(c *callCtx) bool {
+		x := c.x
+		x.vc.declFun("uf_re_pattern", []string{SInt}, SStr)
+		x.vc.declFun("uf_re_compiles", []string{SStr}, SBool)
+		ok := app("uf_re_compiles", c.args[0].S)
+		r := x.allocRef(c.n, c.st, "regexp")
+		c.n.assume(mkEq(app("uf_re_pattern", r), c.args[0].S))
+		e := x.fresh("compile_err", c.resTypes[1])
+		c.n.assume(mkEq(app("=", app("i.tag", e.S), "0"), ok))
+		c.res = []Term{{S: mkIte(ok, r, "0"), Sort: SInt, T: c.resTypes[0]}, e}
+		return true
+	})
+	reg("(*regexp.Regexp).MatchString", "reMatch(pattern(re), s): an uninterpreted relation", func(c *callCtx) bool {
+		x := c.x
+		x.vc.declFun("uf_re_pattern", []string{SInt}, SStr)
+		x.vc.declFun("uf_re_match", []string{SStr, SStr}, SBool)
+		return boolRes(c, app("uf_re_match", app("uf_re_pattern", c.args[0].S), c.args[1].S))
+	})
+	reg("(*regexp.Regexp).String", "the pattern text", func(c *callCtx) bool {
+		c.x.vc.declFun("uf_re_pattern", []string{SInt}, SStr)
+		c.res = []Term{{S: app("uf_re_pattern", c.args[0].S), Sort: SStr, T: c.resTypes[0]}}
+		return true
+	})
+
 	// --- logging: no effect on program state
 	for _, n := range []string{"log/slog.Debug", "log/slog.Info", "log/slog.Warn", "log/slog.Error", "(*log/slog.Logger).Debug", "(*log/slog.Logger).Info", "(*log/slog.Logger).Warn", "(*log/slog.Logger).Error",
 		"(*log/slog.Logger).Log", "log/slog.Log", "(*log/slog.Logger).Enabled", "log/slog.Default"} {
